@@ -273,6 +273,7 @@ def main(argv):
     ap.add_argument('--procs', type=int, default=16)
     a = ap.parse_args(argv)
     seed = int(os.environ.get('VERIF_SEED', '0') or 0)
+    os.environ['VERIF_TIER'] = a.tier     # contracts may choose tier dependent case splits
     t0 = time.time()
     try:
         D.load_contracts()
